@@ -18,7 +18,7 @@ def native_confirm(grammar, k, text):
     return r["accepted"], r["raw"][-400:]
 
 
-def main(prop="C07", want_exactness=True, with_language=False):
+def main(prop="C07", want_exactness=True, with_language=False, scanner_vocab=False):
     run = Run(prop, "translation_validation")
     N = 8 if tier() == "quick" else 12
     ks = [5] if tier() == "quick" else [1, 2, 5, 10]
@@ -36,8 +36,8 @@ def main(prop="C07", want_exactness=True, with_language=False):
             small = os.path.getsize(a["parser"]) < 400000
             base = {"grammar": a["grammar"], "k": k, "N": N if small else min(N, 8), "exactness": want_exactness and small}
             # primary artifact: the tables inside the generated parser source
-            tasks.append(dict(base, source="parser_rs", parser=a["parser"], align_e=(a.get("e") if with_language else None),
-                              source_grammar=(a["grammar"] if with_language else None)))
+            tasks.append(dict(base, source="parser_rs", parser=a["parser"], align_e=(a.get("e") if (with_language and not scanner_vocab) else None),
+                              source_grammar=(a["grammar"] if with_language else None), scanner_vocab=scanner_vocab))
             # second artifact: the language-agnostic export model (tables of the un-factored grammar)
             if a.get("export") and (tier() == "thorough" or a["grammar"].startswith("/verif/grammars/")):
                 tasks.append(dict(base, source="export", export=a["export"], exactness=False))
@@ -67,6 +67,10 @@ def main(prop="C07", want_exactness=True, with_language=False):
             else:
                 run.violation("%s (k=%d): generated tables do not encode the transformed grammar: %s" % (r["grammar"], r["k"], s),
                               {"grammar": r["grammar"], "k": r["k"], "kind": "alignment", "issue": s})
+        for s_ in r.get("identity_issues", []):
+            disagreements += 1
+            run.violation("%s (k=%d): terminal numbering of the generated parts is inconsistent: %s" % (r["grammar"], r["k"], s_),
+                          {"grammar": r["grammar"], "k": r["k"], "kind": "identity", "issue": s_})
         lang = r.get("language")
         if lang:
             queries += 1
@@ -149,12 +153,17 @@ def replay(path):
     obj = json.load(open(path))["replay"]
     a = GL.generate([obj["grammar"]], k=obj.get("k", 5), want_parser=True)[0]
     src = obj.get("source") or "parser_rs"
-    r = GT.one({"grammar": obj["grammar"], "k": obj.get("k", 5), "export": a.get("export"), "parser": a.get("parser"), "source": src,
+    r = GT.one({"grammar": obj["grammar"], "k": obj.get("k", 5), "export": a.get("export"), "parser": a.get("parser"), "source": src, "scanner_vocab": bool(obj.get("scanner_vocab")),
                 "align_e": a.get("e") if src == "parser_rs" else None, "source_grammar": obj["grammar"] if obj["kind"] == "language" else None,
                 "N": obj.get("N", 8), "exactness": False})
     print(json.dumps({k: r.get(k) for k in ("structure", "alignment_issues", "language", "completeness")}, indent=1, default=str))
     if obj["kind"] == "structure":
         return 1 if obj["issue"] in r.get("structure", []) else 0
+    if obj["kind"] == "identity":
+        r2 = GT.one({"grammar": obj["grammar"], "k": obj.get("k", 5), "parser": a.get("parser"), "source": "parser_rs", "scanner_vocab": True,
+                     "source_grammar": obj["grammar"], "N": obj.get("N", 8), "exactness": False})
+        print(r2.get("identity_issues"))
+        return 1 if r2.get("identity_issues") else 0
     if obj["kind"] == "alignment":
         return 1 if r.get("alignment_issues") else 0
     if obj["kind"] == "language":
